@@ -113,7 +113,8 @@ func buildTaffif(unitCostStr string) *charging_datatype.MonetaryTariff {
 	dotPos := strings.Index(unitCostStr, ".")
 	if dotPos == -1 {
 		unitCost.Exponent = datatype.Integer32(0)
-		if digit, err := strconv.Atoi(unitCostStr); err == nil {
+		// (server and CHF price in 32 bits: a unit cost beyond that cannot be applied and is left at 0, like malformed text)
+		if digit, err := strconv.Atoi(unitCostStr); err == nil && digit >= 0 && digit <= math.MaxUint32 {
 			unitCost.ValueDigits = datatype.Integer64(digit)
 		}
 	} else {
